@@ -47,6 +47,27 @@ pub fn gen_stream(r: &mut Rng, i: u64, small: bool) -> (String, Vec<u8>) {
         }
         return ("exact-fill".into(), body);
     }
+    if i % 16 == 13 && !small {
+        // Thousands of very short lines in one response (a big `list` / `listall` reply), behind a response that has
+        // already made the receive buffer grow, so that a single read carries far more than a thousand lines; then the
+        // peer stays silent. Everything that was delivered must come out without another read.
+        let mut body = Vec::new();
+        if r.chance(2, 3) {
+            body.extend_from_slice(b"big: ");
+            body.extend(std::iter::repeat(b'y').take(r.range(5000, 12000)));
+            body.extend_from_slice(b"\nOK\n");
+        }
+        let n = r.range(1100, 3000);
+        let line: &[u8] = *r.pick(&[&b"a: \n"[..], b"a: 1\n", b"file: x\n", b"Artist: ab\n"]);
+        for _ in 0..n {
+            body.extend_from_slice(line);
+        }
+        body.extend_from_slice(b"OK\n");
+        if r.chance(1, 2) {
+            body.extend_from_slice(b"b: 2\nOK\n");
+        }
+        return ("many-short-lines".into(), body);
+    }
     let kind = if i % 10 == 9 { 100 } else { r.below(100) };
     if kind < 40 {
         let s = gen::gen_session(r, 6);
@@ -107,7 +128,9 @@ impl Property for C02 {
     fn run_case(&self, cfg: &Cfg, i: u64, acc: &mut Acc) {
         let mut r = Rng::keyed(&[cfg.seed, 2, i]);
         let (label, body) = gen_stream(&mut r, i, false);
-        let end = if label == "exact-fill" {
+        let end = if label == "many-short-lines" && i % 32 != 13 {
+            StreamEnd::Eof
+        } else if label == "exact-fill" || label == "many-short-lines" {
             // the peer stays silent: asking for more bytes than were sent does not return (stand-in: a timeout error)
             StreamEnd::Error(std::io::ErrorKind::TimedOut)
         } else if r.chance(1, 8) { StreamEnd::Error(*r.pick(&[std::io::ErrorKind::ConnectionReset, std::io::ErrorKind::UnexpectedEof, std::io::ErrorKind::TimedOut, std::io::ErrorKind::Other])) } else { StreamEnd::Eof };
@@ -124,11 +147,11 @@ impl Property for C02 {
         for hv in &reference.hook_violations {
             acc.violation(i, None, format!("hook invariant (reference run): {}", hv), J::obj().set("stream", J::hex(&body)).set("label", label.clone()));
         }
-        if label == "exact-fill" {
+        if label == "exact-fill" || label == "many-short-lines" {
             // this stream is made of complete responses only: all of them must come out before the peer's silence is noticed
             let want = body.windows(4).filter(|w| w == b"\nOK\n").count() + body.windows(5).filter(|w| w == b"ACK [").count();
             let got = reference.items.iter().filter(|i| matches!(i, Item::Resp(_))).count();
-            if got != want || !matches!(reference.items.last(), Some(Item::ErrIo(_))) {
+            if got != want || !matches!(reference.items.last(), Some(Item::ErrIo(_)) | Some(Item::CleanEnd)) {
                 acc.violation(i, None, format!("a stream of {} complete responses ({} bytes, then the peer stays silent) read in one piece by the blocking connection gave {} responses, terminal {:?}", want, body.len(), got, reference.items.last().map(|x| x.kind())), J::obj().set("stream_len", body.len() as u64).set("observed", items_summary(&reference.items)));
             }
         }
@@ -319,7 +342,7 @@ impl Property for C02 {
     fn meta(&self, _cfg: &Cfg, _acc: &Acc) -> Meta {
         Meta {
             level: "exploration",
-            rule: "streams: encoder output of random abstract sessions, buffer-edge sessions (length 4096*2^k +-3), mutated, dictionary and random bytes, and (one in 16) 'exact-fill' streams of complete responses whose total length lands on or next to 4096*2^k, after which the peer stays silent (a timeout error instead of EOF: the read that fills the buffer to the brim also completes the last response, and all responses must come out before the silence is noticed); each stream is run whole on the blocking connection (reference) and then under byte-at-a-time, 8 random k-way (k<=32) and 2-way splits (every split point for streams <=1 KiB, a 512-wide window around each 2^k buffer edge plus random points otherwise) and everything in one read, on both connection flavours (async also with spurious Pending); for every 8th stream additionally the greeting line itself is cut at each of its positions and byte by byte (connect under segmentation), the rest cut at random; a case is a (stream, segmentation, flavour) triple; non-trivial = the stream yields >=1 complete response and the segmentation has >=2 chunks; distinct = by hash of (stream bytes, cut points, flavour)".into(),
+            rule: "streams: encoder output of random abstract sessions, buffer-edge sessions (length 4096*2^k +-3), mutated, dictionary and random bytes, and (one in 16) 'exact-fill' streams of complete responses whose total length lands on or next to 4096*2^k, after which the peer stays silent (a timeout error instead of EOF: the read that fills the buffer to the brim also completes the last response, and all responses must come out before the silence is noticed); and (one in 16) responses of 1100-3000 very short lines behind a response that made the buffer grow, so that one read carries thousands of lines, ended by EOF or by a silent peer; each stream is run whole on the blocking connection (reference) and then under byte-at-a-time, 8 random k-way (k<=32) and 2-way splits (every split point for streams <=1 KiB, a 512-wide window around each 2^k buffer edge plus random points otherwise) and everything in one read, on both connection flavours (async also with spurious Pending); for every 8th stream additionally the greeting line itself is cut at each of its positions and byte by byte (connect under segmentation), the rest cut at random; a case is a (stream, segmentation, flavour) triple; non-trivial = the stream yields >=1 complete response and the segmentation has >=2 chunks; distinct = by hash of (stream bytes, cut points, flavour)".into(),
             nontrivial_set: "nontrivial",
             assumptions: vec![
                 "the greeting is delivered with a read boundary right after its line feed (connect discards bytes read beyond the greeting; nothing can follow the greeting in a real session before the client has spoken)".into(),
@@ -328,7 +351,7 @@ impl Property for C02 {
             ],
             exhaustive: None,
             // (no floor on hook-derived counters: a refactoring that drops a probe must not turn into an alarm)
-            floors: vec![("streams_buffer-edge".into(), 5), ("streams_exact-fill".into(), 20), ("streams_all_2way_splits_exhaustive".into(), 50)],
+            floors: vec![("streams_buffer-edge".into(), 5), ("streams_exact-fill".into(), 20), ("streams_many-short-lines".into(), 20), ("streams_all_2way_splits_exhaustive".into(), 50)],
             extra: vec![],
         }
     }
